@@ -16,7 +16,7 @@ from harness.common import main, pool_map
 from harness import tlc
 from harness.project import scaled_big
 
-K = 48                       # observed floats are shipped as round(x * 2^K)
+K = 44                       # observed floats are shipped as round(x * 2^K)
 NGRID = 12                   # fractional grid points p / NGRID
 BIG0 = {"s": 0, "d": []}
 
@@ -159,9 +159,9 @@ def build(route, recipe):
     if route == "monoclinic_deg":
         return (UnitCell.monoclinic(a, b, c, deg[1], unit="degrees"),
                 "UnitCell.monoclinic(%r, %r, %r, %r, unit='degrees')" % (a, b, c, deg[1]))
-    if route == "from_unique":
+    if route.startswith("unique_"):
         # from_unique_parameters dispatches on the cell type name (radians)
-        fam = recipe["family"]
+        fam = route[len("unique_"):]
         params = {"cubic": (a,), "tetragonal": (a, c), "orthorhombic": (a, b, c), "hexagonal": (a, c),
                   "rhombohedral": (a, al), "monoclinic": (a, b, c, be),
                   "triclinic": (a, b, c, al, be, ga)}[fam]
@@ -204,3 +204,258 @@ def drive(recipe):
         t["routes"].append(o)
     t["meta"]["impl_call"] = "; ".join(calls)[:600]
     return t
+
+
+# ----------------------------------------------------------------------------- generators
+SCALES = [(1, 2), (1, 1), (3, 2), (5, 4), (2, 1), (3, 1), (7, 2), (5, 1), (7, 4), (9, 1), (25, 8), (12, 1)]
+COND_MAX = 100000
+MC_CFG = """SPECIFICATION Spec
+CHECK_DEADLOCK FALSE
+CONSTANTS
+  N = %d
+  BigN = %d
+  Canon = %s
+INVARIANT History
+INVARIANT AdjugateInverse
+INVARIANT GramDeterminant
+INVARIANT GramAdjugate
+INVARIANT VolumeFormula
+INVARIANT StarFormulas
+INVARIANT Cholesky
+INVARIANT Hadamard
+INVARIANT RoutesAgree
+INVARIANT BigAgrees
+"""
+
+
+def adj3(m):
+    def cof(i, j):
+        a, b = (i + 1) % 3, (i + 2) % 3
+        c, d = (j + 1) % 3, (j + 2) % 3
+        return m[a][c] * m[b][d] - m[a][d] * m[b][c]
+    return [[cof(j, i) for j in range(3)] for i in range(3)]
+
+
+def in_domain(G, sn, sd):
+    """Generator-side pre-filter (shapes the distribution only; the guard that decides is
+    Trace_Lattice!Guard, evaluated by TLC on every trace)."""
+    A = adj3(G)
+    d = det3(G)
+    if not (G[0][0] > 0 and A[2][2] > 0 and d > 0):
+        return False
+    if max(abs(x) for r in G for x in r) > 400:
+        return False
+    for (i, j) in ((1, 2), (0, 2), (0, 1)):
+        lim = 98 if G[i][j] >= 0 else 96
+        if 100 * G[i][j] ** 2 > lim * G[i][i] * G[j][j]:
+            return False
+    if (G[0][0] * G[1][1] * G[2][2]) // d >= COND_MAX:
+        return False
+    return all(sd * sd <= sn * sn * G[i][i] <= 10000 * sd * sd for i in range(3))
+
+
+def pick_scale(rng, G):
+    for _ in range(50):
+        sn, sd = rng.choice(SCALES)
+        if in_domain(G, sn, sd):
+            return sn, sd
+    return None
+
+
+def rand_points(rng, n=4):
+    pts = [[rng.randint(-30, 30) for _ in range(3)] for _ in range(n - 1)]
+    pts.append([NGRID * rng.randint(-2, 2) for _ in range(3)])       # a lattice translation
+    return pts
+
+
+def family_of(G):
+    off0 = G[0][1] == 0 and G[0][2] == 0 and G[1][2] == 0
+    if off0 and G[0][0] == G[1][1] == G[2][2]:
+        return "cubic"
+    if off0 and G[0][0] == G[1][1]:
+        return "tetragonal"
+    if off0:
+        return "orthorhombic"
+    if G[0][0] == G[1][1] and 2 * G[0][1] == -G[0][0] and G[0][2] == 0 and G[1][2] == 0:
+        return "hexagonal"
+    if G[0][0] == G[1][1] == G[2][2] and G[0][1] == G[0][2] == G[1][2]:
+        return "rhombohedral"
+    if G[0][1] == 0 and G[1][2] == 0:
+        return "monoclinic"
+    return "triclinic"
+
+
+def recipe_for(rng, kind, M, source, family=None, all_routes=False):
+    G = M if kind == "G" else gram_of(M)
+    sc = pick_scale(rng, G)
+    if sc is None:
+        return None
+    fam = family or family_of(G)
+    wrappers = ["triclinic_rad", "triclinic_deg", "unique_triclinic"]
+    routes = (["vectors"] if kind == "L" else []) + ["params_rad", "params_deg"]
+    routes += wrappers if all_routes else [rng.choice(wrappers)]
+    if fam != "triclinic":
+        routes += FAMILY_ROUTES[fam] + ["unique_" + fam]
+    r = {"kind": kind, "sn": sc[0], "sd": sc[1], "family": fam, "routes": routes,
+         "pts": rand_points(rng), "source": source}
+    r["L" if kind == "L" else "G"] = M
+    if kind == "G":
+        r["L"] = None
+    return r
+
+
+def rand_lattice(rng, lim=6):
+    while True:
+        L = [[rng.randint(-lim, lim) for _ in range(3)] for _ in range(3)]
+        if det3(L) > 0:
+            return L
+
+
+def near_degenerate(rng):
+    """Long vectors with a small determinant: angles near the 8 / 170 degree ends."""
+    while True:
+        L = rand_lattice(rng)
+        G = gram_of(L)
+        d = det3(G)
+        if (G[0][0] * G[1][1] * G[2][2]) // d >= 200:
+            return L
+
+
+def rand_gram(rng):
+    """A positive definite integer Gram matrix that need not be L L^T for an integer L."""
+    while True:
+        d = [rng.randint(2, 300) for _ in range(3)]
+        G = [[0] * 3 for _ in range(3)]
+        for i in range(3):
+            G[i][i] = d[i]
+        for (i, j) in ((0, 1), (0, 2), (1, 2)):
+            m = int(math.isqrt(d[i] * d[j]))
+            G[i][j] = G[j][i] = rng.randint(-m, m)
+        if det3(G) > 0 and G[0][0] * G[1][1] - G[0][1] ** 2 > 0:
+            return G
+
+
+def family_gram(rng, fam):
+    a, b, c = rng.sample(range(2, 200), 3)
+    if fam == "cubic":
+        return [[a, 0, 0], [0, a, 0], [0, 0, a]]
+    if fam == "tetragonal":
+        return [[a, 0, 0], [0, a, 0], [0, 0, c]]
+    if fam == "orthorhombic":
+        return [[a, 0, 0], [0, b, 0], [0, 0, c]]
+    if fam == "hexagonal":
+        a = 2 * (a // 2 + 1)
+        return [[a, -a // 2, 0], [-a // 2, a, 0], [0, 0, c]]
+    if fam == "rhombohedral":
+        h = rng.randint(-(a // 2) + 1, a - 1)
+        return [[a, h, h], [h, a, h], [h, h, a]]
+    if fam == "monoclinic":
+        m = int(math.isqrt(a * c))
+        h = rng.randint(-m, m)
+        return [[a, 0, h], [0, b, 0], [h, 0, c]]
+    raise ValueError(fam)
+
+
+def family_lattice(rng, fam):
+    """Integer lattices of the named families (so that the vectors route applies too)."""
+    m, n, k = rng.sample(range(1, 7), 3)
+    if fam == "cubic":
+        return [[m, 0, 0], [0, m, 0], [0, 0, m]]
+    if fam == "tetragonal":
+        return [[m, 0, 0], [0, m, 0], [0, 0, n]]
+    if fam == "orthorhombic":
+        return [[m, 0, 0], [0, n, 0], [0, 0, k]]
+    if fam == "hexagonal":          # a = (m,-m,0), b = (0,m,-m): |a|^2 = 2m^2, a.b = -m^2; c along (1,1,1)
+        return [[m, -m, 0], [0, m, -m], [n, n, n]]
+    if fam == "rhombohedral":       # cyclic permutations of (m, n, n)
+        L = [[m, n, n], [n, m, n], [n, n, m]]
+        return L if det3(L) > 0 else [L[1], L[0], L[2]]
+    if fam == "monoclinic":
+        h = rng.randint(-5, 5)
+        return [[m, 0, 0], [0, n, 0], [h, 0, k]]
+    raise ValueError(fam)
+
+
+def small_lattices():
+    """All L with entries in -1..1 and det > 0 (the range MC_Lattice enumerates)."""
+    import itertools
+    out = []
+    for e in itertools.product((-1, 0, 1), repeat=9):
+        L = [list(e[0:3]), list(e[3:6]), list(e[6:9])]
+        if det3(L) > 0:
+            out.append(L)
+    return out
+
+
+def make_recipes(ctx):
+    rng = ctx.rng
+    recipes = []
+
+    def add(r):
+        if r is not None:
+            recipes.append(r)
+    ar = not ctx.quick
+    n_rand = ctx.pick(110, 3000)
+    n_deg = ctx.pick(40, 1500)
+    n_gram = ctx.pick(40, 1500)
+    n_fam = ctx.pick(4, 100)
+    for _ in range(n_rand):
+        add(recipe_for(rng, "L", rand_lattice(rng), "random-lattice", all_routes=ar))
+    for _ in range(n_deg):
+        add(recipe_for(rng, "L", near_degenerate(rng), "near-degenerate-lattice", all_routes=ar))
+    for _ in range(n_gram):
+        add(recipe_for(rng, "G", rand_gram(rng), "random-gram", all_routes=ar))
+    for fam in ("cubic", "tetragonal", "orthorhombic", "hexagonal", "rhombohedral", "monoclinic"):
+        for _ in range(n_fam):
+            add(recipe_for(rng, "G", family_gram(rng, fam), "family-gram", all_routes=ar))
+            add(recipe_for(rng, "L", family_lattice(rng, fam), "family-lattice", all_routes=ar))
+    small = small_lattices()
+    if ctx.quick:
+        small = rng.sample(small, 30)
+    for L in small:
+        add(recipe_for(rng, "L", L, "mc-range-lattice", all_routes=ar))
+    # deliberately outside the domain (must come back OOD, never judged)
+    add({"kind": "L", "L": [[6, 0, 0], [12, 1, 0], [0, 0, 1]], "G": None, "sn": 1, "sd": 1, "family": "triclinic",
+         "routes": ["vectors", "params_rad"], "pts": [[1, 2, 3]], "source": "out-of-domain"})
+    return recipes
+
+
+CONSTS = "  K = %d\n  CondMax = %d\n" % (K, COND_MAX)
+
+
+def run(ctx):
+    # Canon = first row 0 <= x <= y <= z: every Gram matrix of the full range is still visited
+    ctx.model_check("mc/MC_Lattice.tla", MC_CFG % (2, 1, "TRUE"),
+                    name="MC_Lattice(-2..2, first row canonical; BigInt cross-check on -1..1)", timeout=900)
+    if not ctx.quick:
+        ctx.model_check("mc/MC_Lattice.tla", MC_CFG % (2, 0, "FALSE"), name="MC_Lattice(-2..2, all)", timeout=1400)
+        ctx.model_check("mc/MC_Lattice.tla", MC_CFG % (3, 0, "TRUE"),
+                        name="MC_Lattice(-3..3, first row canonical)", timeout=1400)
+    recipes = make_recipes(ctx)
+    traces = pool_map(drive, recipes)
+    ctx.validate("trace/Trace_Lattice.tla", traces, consts=CONSTS, batch=4000, timeout=1200)
+    ctx.rule = ("exact integer cells (lattice L with entries -6..6 and det > 0, or a positive definite integer "
+                "Gram matrix; rational scale) built through every applicable construction route of the real "
+                "UnitCell; non-trivial = at least one non-right angle (an off-diagonal Gram entry is non-zero)")
+    ctx.explanation = ("MC_Lattice is exhaustive over its integer ranges (a design-level model); the cells "
+                       "driven through the implementation are sampled, except all det>0 lattices with entries "
+                       "in -1..1 in the thorough tier")
+    ctx.assumptions = [
+        "float arguments (lengths s*sqrt(G_ii), angles acos(G_ij/sqrt(G_ii G_jj))) are computed by the harness "
+        "from the exact integers with correctly rounded libm calls; their rounding (<= 2 ulp) is covered by the slack",
+        "cos/sin of a reported angle are taken with numpy in the harness to project the angle onto the algebraic "
+        "quantity the spec knows exactly (cos^2 with sign, sin^2)",
+        "domain: lengths 1..100 A, angles 8..170 degrees, (abc/V)^2 < %d" % COND_MAX,
+    ]
+    ctx.notes["slack"] = "relative 1e-9 x (abc/V)^2, (abc/V)^2 computed exactly by the spec from the Gram matrix"
+    ctx.notes["scale"] = "observed floats shipped as round(x * 2^%d)" % K
+    ctx.notes["routes"] = sorted({r for rec in recipes for r in rec["routes"]})
+
+
+def replay(ctx, rec):
+    t = drive(rec["record"]["meta"]["recipe"])
+    ctx.validate("trace/Trace_Lattice.tla", [t], consts=CONSTS)
+
+
+if __name__ == "__main__":
+    raise SystemExit(main("C12", run, replay))
